@@ -36,11 +36,13 @@ Inductive gexpr :=
 | ENew (ty : string)                                  (* new(T), and the zero value of a declared variable *)
 | ELit (ty : string) (fs : list (string * gexpr))     (* T{f: e, ...} *)
 | EIndex (e i : gexpr)                                (* e[i] *)
+| ESliceFrom (e lo : gexpr)                           (* e[lo:] *)
 | EUnknown (what : string).
 
 Inductive gstmt :=
 | SAssign (lhs : list string) (rhs : gexpr)           (* x := e   x, y := e   x = e *)
 | SOpAssign (x : string) (o : binop) (rhs : gexpr)    (* x *= e ... *)
+| SAssignField (x f : string) (rhs : gexpr)           (* x.f = e, x.f++ *)
 | SIf (init : list gstmt) (c : gexpr) (thn els : list gstmt)
 | SReturn (es : list gexpr)
 | SSkip (what : string)                               (* logging call *)
@@ -102,10 +104,21 @@ Inductive gval :=
 | VHMarks (m : Includer.marks) | VDMarks (m : Includer.marks)
 | VHdrI (b : Includer.blk) | VDatI (b : Includer.blk) | VIdH (id : N) | VIdD (id : N)
 | VLE64 (v : N)                                 (* 8 bytes, little endian *)
+(* objects with assignable fields, and lists (the single sequencer's BatchQueue, sequencers/single/queue.go) *)
+| VObj (ty : string) (fields : list (string * gval))
+| VList (l : list gval)
+| VBatchQ (b : N)                               (* a coresequencer.Batch, by its contents' id (Model/Queue.v) *)
+| VHashQ (b : N) | VHexQ (b : N) | VTxsQ (b : N) | VEncQ (b : N)   (* batch.Hash(), its hex, batch.Transactions, proto.Marshal of it *)
+| VKeyQ (k : N)                                 (* batchKey(seq, hash): identified with its sequence number *)
+| VQDB (put_ok : bool)
 | VKey (k : Includer.mkey) | VKeyPrefix
 | VUnit.
 
 Definition env := list (string * gval).
+(* list length / append of list VALUES, under their own names so that a proof can keep them folded while the
+   evaluator's own use of [length] / [++] computes *)
+Definition llen (l : list gval) : N := N.of_nat (length l).
+Definition lapp (a b : list gval) : list gval := a ++ b.
 
 Fixpoint lookup {A} (l : list (string * A)) (x : string) : option A :=
   match l with
@@ -141,7 +154,8 @@ Definition sig_len (s : sigterm) : N := match s with SigEmpty => 0 | _ => 64 end
 Definition tyname (v : gval) : string :=
   match v with
   | VHeader _ => "Header" | VSHeader _ => "SignedHeader" | VSig _ => "Signature" | VData _ => "Data"
-  | VOSData _ => "SignedData" | VMgr _ => "Manager" | VMgrI _ => "Manager" | VPBase _ => "pendingBase" | VState _ => "State"
+  | VOSData _ => "SignedData" | VMgr _ => "Manager" | VMgrI _ => "Manager"
+  | VObj ty _ => ty | VPBase _ => "pendingBase" | VState _ => "State"
   | _ => "?"
   end.
 
@@ -208,6 +222,8 @@ Definition sel (v : gval) (f : string) : res gval :=
       if f =? "daIncludedHeight" then RRet (VAtomicI w) else
       if f =? "headerCache" then RRet (VHMarks (iw_hm w)) else
       if f =? "dataCache" then RRet (VDMarks (iw_dm w)) else RFail ("Manager." ++ f)
+  | VObj _ fields => match lookup fields f with Some v => RRet v | None => RFail ("field " ++ f) end
+  | VBatchQ b => if f =? "Transactions" then RRet (VTxsQ b) else RFail ("Batch." ++ f)
   | VRec fields => match lookup fields f with Some v => RRet v | None => RFail ("field " ++ f) end
   | VIdsResult ids ts =>
       if f =? "IDs" then RRet (VIds ids 0) else
@@ -293,6 +309,7 @@ Definition meth (v : gval) (m : string) (args : list gval) : res gval :=
       if m =? "GetDAIncludedHeight" then
         RIf (mhas mk i) (RRet (VTuple [VN (mget0 mk i); VBool true])) (RRet (VTuple [VN 0; VBool false]))
       else RFail ("dataCache." ++ m)
+  | VBatchQ b, [] => if m =? "Hash" then RRet (VTuple [VHashQ b; VNil]) else RFail ("Batch." ++ m)
   | VDAErr e, [] => if m =? "Error" then RRet (VStr (Proxy.e_msg e)) else RFail ("error." ++ m)
   | VSent _ t, [] => if m =? "Error" then RRet (VStr t) else RFail ("error." ++ m)
   | _, _ => RFail ("method " ++ m)
@@ -308,6 +325,7 @@ Definition builtin (globals : env) (f : string) (args : list gval) : res gval :=
     | [VBlobs n] => RRet (VN (N.of_nat n))
     | [VTxs (Some l)] => RRet (VN (N.of_nat (length l)))
     | [VTxs None] => RRet (VN 0)
+    | [VList l] => RRet (VN (llen l))
     | _ => RFail "len"
     end
   else if f =? "bytes.Equal" then
@@ -332,10 +350,25 @@ Definition builtin (globals : env) (f : string) (args : list gval) : res gval :=
   else if f =? "context.Background" then RRet VUnit
   else if f =? "fmt.Sprintf" then
     match args with
+    | [VStr fm; VN sq; VHexQ _] =>
+        if fm =? "s%016x-%s" then RRet (VKeyQ sq) else RFail "Sprintf: batch key format"
     | [VStr fm; VKeyPrefix; VN h] =>
         if fm =? "%s/%d/h" then RRet (VKey (Includer.KH h)) else
         if fm =? "%s/%d/d" then RRet (VKey (Includer.KT h)) else RFail "Sprintf: key format"
     | _ => RRet (VStr "")
+    end
+  else if f =? "hex.EncodeToString" then match args with [VHashQ b] => RRet (VHexQ b) | _ => RFail "hex.EncodeToString" end
+  else if f =? "ds.NewKey" then match args with [v] => RRet v | _ => RFail "ds.NewKey" end
+  else if f =? "fmt.Printf" then RRet VUnit
+  else if f =? "proto.Marshal" then
+    match args with
+    | [VRec [(fld, VTxsQ b)]] => if fld =? "Txs" then RRet (VTuple [VEncQ b; VNil]) else RFail "proto.Marshal"
+    | _ => RFail "proto.Marshal"
+    end
+  else if f =? "append" then
+    match args with
+    | [VList l; v] => RRet (VList (lapp l [v]))
+    | _ => RFail "append"
     end
   else if f =? "uint64" then match args with [v] => RRet v | _ => RFail "uint64" end
   else if f =? "errors.Is" then
@@ -479,6 +512,10 @@ Definition eff_meth (v : gval) (m : string) (args : list gval) : option (res (gv
       if m =? "SetMetadata"
       then Some (RIf (iw_put_ok w) (RRet (VNil, [VEff "put" [VKey k; VN x]])) (RRet (VErr true, [])))
       else None
+  | VQDB ok, [_; VKeyQ k; VEncQ b] =>
+      if m =? "Put" then Some (RIf ok (RRet (VNil, [VEff "put" [VKeyQ k; VBatchQ b]])) (RRet (VErr true, []))) else None
+  | VQDB ok, [_; VKeyQ k] =>
+      if m =? "Delete" then Some (RRet (VNil, [VEff "delete" [VKeyQ k]])) else None
   | VAtomicI w, [VN old; VN new] =>
       if m =? "CompareAndSwap"
       then Some (RIf (old =? iw_di w)%N (RRet (VBool true, [VEff "publish" [VN new]])) (RRet (VBool false, [])))
@@ -579,8 +616,17 @@ Fixpoint eval (fuel : nat) (fs : list (string * gfun)) (globals en : env) (e : g
         bind (ev a) (fun va => bind (ev i) (fun vi =>
           match va, vi with
           | VIds (_ :: _) h, VZ 0%Z => RRet (VId h)
+          | VList (x :: _), VZ 0%Z => RRet x
+          | VList [], _ => RFail "index out of range"
           | VIds [] _, _ => RFail "index out of range"
           | _, _ => RFail "index"
+          end))
+    | ESliceFrom a lo =>
+        bind (ev a) (fun va => bind (ev lo) (fun vl =>
+          match va, vl with
+          | VList (_ :: r), VZ 1%Z => RRet (VList r)
+          | VList [], VZ 1%Z => RFail "slice bounds out of range"
+          | _, _ => RFail "slice"
           end))
     | ENil => RRet VNil
     | EBool b => RRet (VBool b)
@@ -672,6 +718,12 @@ with exec (fuel : nat) (fs : list (string * gfun)) (globals en : env) (lg : list
                          bind (arith o a b) (fun v => exec fuel' fs globals ((x, v) :: en) lg rest))
           | None => RFail ("unbound " ++ x)
           end
+      | SAssignField x f e =>
+          match lookup en x with
+          | Some (VObj ty fields) =>
+              bind (ev e) (fun v => exec fuel' fs globals ((x, VObj ty ((f, v) :: fields)) :: en) lg rest)
+          | _ => RFail ("field assignment to " ++ x)
+          end
       | SIf (i :: init) c t e => exec fuel' fs globals en lg (i :: SIf init c t e :: rest)
       | SIf [] c t e =>
           bind (ev c) (fun v =>
@@ -679,7 +731,16 @@ with exec (fuel : nat) (fs : list (string * gfun)) (globals en : env) (lg : list
             | VBool b => RIf b (exec fuel' fs globals en lg (t ++ rest)) (exec fuel' fs globals en lg (e ++ rest))
             | _ => RFail "if on a non-boolean"
             end)
-      | SReturn es => bind (seq_res (map ev es)) (fun vs => RRet (vs, lg))
+      | SReturn es =>
+          (* the state an object receiver is left in is part of what the function did *)
+          let lg' := match lookup en "$recv" with
+                     | Some (VStr r) => match lookup en r with
+                                        | Some (VObj ty fields) => VEff "receiver" [VObj ty fields] :: lg
+                                        | _ => lg
+                                        end
+                     | _ => lg
+                     end in
+          bind (seq_res (map ev es)) (fun vs => RRet (vs, lg'))
       | SSkip _ => exec fuel' fs globals en lg rest
       | SExpr (EMeth a m args) =>
           bind (ev a) (fun v => bind (seq_res (map ev args)) (fun vs =>
@@ -710,7 +771,7 @@ with exec (fuel : nat) (fs : list (string * gfun)) (globals en : env) (lg : list
 
 Definition start_env (fn : gfun) (recv : option gval) (args : list gval) : env :=
   match f_recv fn, recv with
-  | Some r, Some v => (r, v) :: bind_params (f_params fn) args
+  | Some r, Some v => ("$recv", VStr r) :: (r, v) :: bind_params (f_params fn) args
   | _, _ => bind_params (f_params fn) args
   end.
 
